@@ -103,6 +103,11 @@ func balancesExact(m *hist.Machine, op string) {
 func propBalances(t *rapid.T) {
 	cfg := hist.GenConfig(t, []uint{0, 100, 1000}, true)
 	cfg.WithServer = true
+	// one history in three runs on a backend that invoices whatever it is asked for (like the repository's test backend)
+	// instead of refusing absurd amounts: the limits are the mint's to enforce
+	if !cfg.ViaCLN && !cfg.ViaLND && rapid.IntRange(0, 2).Draw(t, "permissive_backend") == 0 {
+		cfg.LNPermissive = true
+	}
 	cfg.Limits = mint.MintLimits{
 		MaxBalance:      rapid.SampledFrom([]uint64{0, 0, 10, 500, 5000, 100000}).Draw(t, "max_balance"),
 		MintingSettings: mint.MintMethodSettings{MaxAmount: rapid.SampledFrom([]uint64{0, 0, 1, 64, 300, 70000}).Draw(t, "mint_max")},
@@ -128,6 +133,9 @@ func propBalances(t *rapid.T) {
 			}
 		}
 		rec.Class(fmt.Sprintf("max_balance_set=%v", cfg.Limits.MaxBalance > 0))
+		if cfg.LNPermissive {
+			rec.Class("history_on_backend_that_invoices_any_amount")
+		}
 		rec.Sample("history", map[string]any{"limits": fmt.Sprintf("%+v", cfg.Limits), "fee_ppk": cfg.FeePpk, "trace": m.Trace})
 	}
 }
